@@ -201,6 +201,28 @@ def correspond(ctx):
             pk_cases.append(c)
             dist["mutation: p2c at the maximum"] += 1
 
+    # a JWE encrypted directly under a content key, relabelled (unauthenticated header) as an RSA1_5 / RSA-OAEP /
+    # A128KW / ECDH-ES recipient whose encrypted_key is the raw content key: the key offered belongs to no recipient
+    rsak = keys.get("RSA2048")
+    for enc in ("A128GCM", "A256CBC-HS512"):
+        K = G.oct_key(rnd, G.ENC_KEYLEN[enc])
+        t0 = {"protected": {"enc": enc}, "unprotected": {"alg": "dir"}}
+        o0 = G.harness(bdir, ["jweenc\t%s\t-\t%s\t%s" % (G.dumps(t0), G.dumps(K), b"forged".hex())])[0]
+        if o0 == "ERR" or o0.startswith("CRASH"):
+            continue
+        for alg, dk in (("RSA1_5", rsak), ("RSA-OAEP", rsak), ("A128KW", G.oct_key(rnd, 16)), ("ECDH-ES+A128KW", keys.get("P-256"))):
+            if dk is None:
+                continue
+            t = json.loads(o0)
+            t["unprotected"]["alg"] = alg
+            for ek in (K["k"], K["k"] + "AA", G.b64(b"\0" * 256)):
+                t2 = json.loads(json.dumps(t))
+                t2["encrypted_key"] = ek
+                c = "jwedec\t%s\t-\t%s" % (G.dumps(t2), G.dumps(dk))
+                expected[c] = "ERR"
+                pk_cases.append(c)
+                dist["forged recipient: raw content key as encrypted_key"] += 1
+
     def oracle(case, out):
         if out.startswith("CRASH"):
             return ("crash:" + out[:80], "crash or sanitizer report: " + out)
